@@ -89,8 +89,9 @@ def deps(t, memo=None):
     elif k == "bsel":
         r = [_union(deps(t[1], memo) + deps(t[2], memo))] * t[3]
     elif k == "arr":
-        iu = _union(deps(t[1], memo))
-        es = [deps(e, memo) for e in t[2:]]
+        idx = deps(t[1], memo)
+        iu = _union(idx)
+        es = [deps(e, memo) for e in t[2:]][:1 << len(idx)]        # elements the index cannot select contribute nothing
         w = max(len(e) for e in es)
         r = [iu | _union([e[i] for e in es if i < len(e)]) for i in range(w)]
     elif k == "amem":
@@ -99,6 +100,12 @@ def deps(t, memo=None):
         raise ValueError(t)
     memo[t] = r
     return r
+
+
+def is_signed(t):
+    """negation and subtraction have to represent negative results (docs/guide.rst, arithmetic operators); every other
+    term of this language is built from unsigned operands and is unsigned; slices and concatenations are unsigned"""
+    return t[0] in ("neg", "sub")
 
 
 def width(t, memo=None):
@@ -121,8 +128,10 @@ def node_graph(stmts, nbits_of_sig, node_of):
         lhs = s["lhs"]
         comb = s["dom"] == "comb"
         if lhs[0] == "bits":
+            # a narrower right-hand side is extended: with zeros (no dependency) if unsigned, with its MSB if signed
+            ext = r[-1] if (r and is_signed(s["rhs"])) else EMPTY
             for i, v in enumerate(lhs[1]):
-                d = cd | (r[i] if i < len(r) else EMPTY)
+                d = cd | (r[i] if i < len(r) else ext)
                 add(v, d if comb else EMPTY)
         elif lhs[0] == "bsel":
             # sig.bit_select(offset, 1).eq(rhs): every bit whose index the offset can take is a possible target
@@ -132,9 +141,9 @@ def node_graph(stmts, nbits_of_sig, node_of):
             for b in range(reach):
                 add(node_of[(sig, b)], (cd | od | (r[0] if r else EMPTY)) if comb else EMPTY)
         elif lhs[0] == "arr":
-            # Array([bit, bit, ...])[index].eq(rhs): every element is a possible target
+            # Array([bit, bit, ...])[index].eq(rhs): every element the index can select is a possible target
             od = _union(deps(lhs[2], memo))
-            for v in lhs[1]:
+            for v in lhs[1][:1 << width(lhs[2], memo)]:
                 add(v, (cd | od | (r[0] if r else EMPTY)) if comb else EMPTY)
         else:
             raise ValueError(lhs)
